@@ -15,6 +15,7 @@ from pbsym import ctx, rig as rigm, script as sc
 from pbsym.ctx import B
 
 PROPERTY = 'C04'
+TECHNIQUE = 'CrossHair/z3 symbolic execution of the decorated program against its undecorated twin under symbolic fault plans; thread schedules explored by solver-driven enumeration over a cooperative AST rewrite of tape_recorder.py'
 FUNCTIONS = ['playback/tape_recorder.py::TapeRecorder._operation',
              'playback/tape_recorder.py::TapeRecorder._currently_in_interception',
              'playback/tape_recorder.py::TapeRecorder.start_recording',
